@@ -63,6 +63,9 @@ def _task(kind, prop, tier, arg=None):
         return verify_Z(prop, tier)
     if kind == 'L':
         return verify_L(prop, tier)
+    if kind == 'Q':
+        from .. import zqr
+        return zqr.verify(arg)
     if kind == 'S':
         from .. import zsweep
         cls, mode = arg
@@ -73,6 +76,7 @@ def _task(kind, prop, tier, arg=None):
     return []
 
 
+QR = {'C11': ['C11'], 'C01': ['C11'], 'C12': ['C12'], 'C13': ['C12']}
 SWEEPS = {'C01': [('MPS', 'left'), ('MPS', 'right'), ('MPO', 'left'), ('MPO', 'right')], 'C02': [('MPS', 'left'), ('MPS', 'right')]}
 
 
@@ -81,6 +85,7 @@ def deductive_all(prop, tier='quick'):
     import concurrent.futures as cf, multiprocessing as mp
     tasks = [('T', prop, tier, None), ('Z', prop, tier, None), ('F', prop, tier, None), ('L', prop, tier, None)]
     tasks += [('S', prop, tier, a) for a in SWEEPS.get(prop, [])]
+    tasks += [('Q', prop, tier, a) for a in QR.get(prop, [])]
     if len(tasks) <= 4 and prop not in ('C12', 'C13'):
         out = []
         for t in tasks:
